@@ -1083,15 +1083,22 @@ func (l *Ledger) GetBaseDB() kvdb.Database {
 }
 
 func (l *Ledger) removeBlocks(fromBlockid []byte, toBlockid []byte, batch kvdb.Batch) error {
+	_, err := l.removeBlocksAbove(fromBlockid, toBlockid, batch)
+	return err
+}
+
+// removeBlocksAbove removes the blocks from fromBlockid downwards that are higher than toBlockid and
+// returns the first block that is kept (nil if the walk ended on a missing block)
+func (l *Ledger) removeBlocksAbove(fromBlockid []byte, toBlockid []byte, batch kvdb.Batch) (*pb.InternalBlock, error) {
 	fromBlock, findErr := l.fetchBlock(fromBlockid)
 	if findErr != nil {
 		l.xlog.Warn("failed to find block", "findErr", findErr)
-		return findErr
+		return nil, findErr
 	}
 	toBlock, findErr := l.fetchBlock(toBlockid)
 	if findErr != nil {
 		l.xlog.Warn("failed to find block", "findErr", findErr)
-		return findErr
+		return nil, findErr
 	}
 	for fromBlock.Height > toBlock.Height {
 		l.xlog.Info("remove block", "blockid", utils.F(fromBlock.Blockid), "height", fromBlock.Height)
@@ -1106,10 +1113,10 @@ func (l *Ledger) removeBlocks(fromBlockid []byte, toBlockid []byte, batch kvdb.B
 		fromBlock, findErr = l.fetchBlock(fromBlock.PreHash)
 		if findErr != nil {
 			l.xlog.Warn("failed to find prev block", "findErr", findErr)
-			return nil //ignore orphan block
+			return nil, nil //ignore orphan block
 		}
 	}
-	return nil
+	return fromBlock, nil
 }
 
 // Truncate truncate ledger and set tipblock to utxovmLastID
@@ -1141,13 +1148,22 @@ func (l *Ledger) Truncate(utxovmLastID []byte) error {
 	for _, branchTip := range branchTips {
 		deletedBlockid := []byte(branchTip)
 		// 裁剪到目标高度
-		err = l.removeBlocks(deletedBlockid, block.Blockid, batchWrite)
+		keptBlock, err := l.removeBlocksAbove(deletedBlockid, block.Blockid, batchWrite)
 		if err != nil {
 			l.xlog.Warn("failed to remove garbage blocks", "from", utils.F(l.meta.TipBlockid),
 				"to", utils.F(block.Blockid))
 			return err
 		}
 		// 更新分支高度信息
+		// the lowest kept block of a cut side branch is a leaf now and must stay registered,
+		// otherwise a later, lower truncation would leave it stored above the new tip
+		if keptBlock != nil && !bytes.Equal(keptBlock.Blockid, block.Blockid) {
+			err = l.updateBranchInfo(keptBlock.Blockid, deletedBlockid, keptBlock.Height, batchWrite)
+			if err != nil {
+				l.xlog.Warn("truncate failed when calling updateBranchInfo", "err", err)
+				return err
+			}
+		}
 		err = l.updateBranchInfo(block.Blockid, deletedBlockid, block.Height, batchWrite)
 		if err != nil {
 			l.xlog.Warn("truncate failed when calling updateBranchInfo", "err", err)
